@@ -81,6 +81,8 @@ pub struct BlockCfg {
     pub block_scope: Sc,
     pub rule_scope: Sc,
     pub check_scope: Sc,
+    /// blocks without any check exist too (facts and rules only)
+    pub has_check: bool,
 }
 
 #[derive(Clone, Debug)]
@@ -152,7 +154,9 @@ pub fn mk_block(i: usize, cfg: &BlockCfg, shape: &CheckShape) -> b::BlockBuilder
         vec![],
         cfg.rule_scope.scopes(),
     ));
-    bb.checks.push(mk_check(shape, cfg.check_scope));
+    if cfg.has_check {
+        bb.checks.push(mk_check(shape, cfg.check_scope));
+    }
     bb.scopes = cfg.block_scope.scopes();
     bb
 }
@@ -377,7 +381,7 @@ pub fn token_case(cfgs: &[BlockCfg], shape: &CheckShape) -> Result<TokenCase, St
                 c.party,
                 c.block_scope.show(),
                 c.rule_scope.show(),
-                c.check_scope.show()
+                if c.has_check { c.check_scope.show() } else { "(no check)" }
             )
         })
         .collect::<Vec<_>>()
@@ -423,13 +427,13 @@ pub fn run(tier: Tier) {
         for &bs0 in &block_opts {
             for &rs0 in &block_opts {
                 for &cs0 in &block_opts {
-                    let b0 = BlockCfg { party: Party::First, block_scope: bs0, rule_scope: rs0, check_scope: cs0 };
+                    let b0 = BlockCfg { party: Party::First, block_scope: bs0, rule_scope: rs0, check_scope: cs0, has_check: true };
                     token_cfgs.push((vec![b0.clone()], shape.clone()));
                     for party in [Party::First, Party::ThirdK1] {
                         for &bs1 in &block_opts {
                             for &rs1 in &block_opts {
                                 for &cs1 in &block_opts {
-                                    let b1 = BlockCfg { party, block_scope: bs1, rule_scope: rs1, check_scope: cs1 };
+                                    let b1 = BlockCfg { party, block_scope: bs1, rule_scope: rs1, check_scope: cs1, has_check: true };
                                     token_cfgs.push((vec![b0.clone(), b1], shape.clone()));
                                 }
                             }
@@ -472,9 +476,19 @@ pub fn run(tier: Tier) {
             }
             for v in pos_sets {
                 let cfgs: Vec<BlockCfg> = (0..3)
-                    .map(|i| BlockCfg { party: ps[i], block_scope: v[3 * i], rule_scope: v[3 * i + 1], check_scope: v[3 * i + 2] })
+                    .map(|i| BlockCfg { party: ps[i], block_scope: v[3 * i], rule_scope: v[3 * i + 1], check_scope: v[3 * i + 2], has_check: true })
                     .collect();
-                token_cfgs.push((cfgs, shape.clone()));
+                token_cfgs.push((cfgs.clone(), shape.clone()));
+                // the same token with some blocks carrying facts and rules only (<= 1 deviation from the default scopes)
+                if v.iter().filter(|x| **x != Sc::None).count() <= 1 {
+                    for mask in [[true, false, true], [false, true, true], [false, false, true], [true, true, false], [true, false, false]] {
+                        let mut c2 = cfgs.clone();
+                        for i in 0..3 {
+                            c2[i].has_check = mask[i];
+                        }
+                        token_cfgs.push((c2, shape.clone()));
+                    }
+                }
             }
         }
     }
